@@ -103,7 +103,7 @@ for shared in (False, True):
     write("mpmc", "mass-buffered-%s.ndjson" % ("shared" if shared else "borrowed"),
           {"NS": 2, "NR": 2, "Cap": BIG, "Wk": [1, 2], "MaxV": 60, "MaxH": 1, "Shared": shared, "WithStream": False, "WithCancel": True},
           ops, "%d values buffered at once in a heap buffer" % BIG,
-          flavours=["shared-growing", "shared-fixed"] if shared else ["pl-fixed", "pl-growing"])
+          flavours=["shared-growing", "shared-fixed", "shared-vlock-array"] if shared else ["pl-fixed", "pl-growing", "local-array", "pl-array"])
 ops = [{"op": "push", "v": v} for v in range(1, BIG + 1)]
 ops += [{"op": "query"}]
 ops += [{"op": "pop"} for _ in range(20)]
@@ -112,7 +112,7 @@ ops += [{"op": "query"}]
 ops += [{"op": "pop"} for _ in range(25)]
 ops += [{"op": "drop_buffer"}]
 write("ring", "mass-fill.ndjson", {"Cap": BIG, "MaxV": 80}, ops,
-      "%d elements in a heap ring buffer, wrap-around, drop with 15 left" % BIG, flavours=["fixed", "growing"])
+      "%d elements in a ring buffer, wrap-around, drop with 15 left" % BIG, flavours=["fixed", "growing", "array"])
 
 # ---- boundary values: requests at the upper end of usize (codes >= INF stand for usize::MAX - (n - INF))
 INF = 2000000000
